@@ -48,10 +48,37 @@ def byWord (l : List (Entry String)) : List (Entry String) :=
 
 def showVocab (v : List String) : String := if v.isEmpty then "-" else showList showWord v
 
+/-- the calling forms of `fit` the harness drives; every one of them reaches the same Rust function
+body, so the model is the same — an unknown form is an ill-formed request -/
+def fitForms : List String :=
+  ["owned", "view", "strided", "reversed", "strref", "display", "checked", "files"]
+/-- the calling forms of `transform` -/
+def trForms : List String :=
+  ["owned", "view", "strided", "reversed", "strref", "display", "serde", "files"]
+
+def argForm (toks : List String) (key : String) (known : List String) : Option Unit := do
+  let s ← arg toks key
+  if known.contains s then some () else none
+
 structure Req where
   nmin : Nat
   nmax : Nat
   fitted : Fitted String
+  /-- `false`: the outcome hangs on a decision the statement leaves open (a relative bound within
+  f32 noise of a document frequency, or a feature cap cutting through entries of equal
+  document frequency) -/
+  decided : Bool
+
+def hexOne : String := "3ff0000000000000"
+def hexZero : String := "0000000000000000"
+def showMargin (decided : Bool) : String := "margin=~" ++ (if decided then hexOne else hexZero)
+
+/-- `bound * n` against a document frequency in exact (f64) arithmetic: equal, or apart by more
+than f32 resolution — otherwise a float tie -/
+def floatTie (bound : Float32) (n df : Nat) : Bool :=
+  let p := bound.toFloat * n.toFloat
+  let d := df.toFloat
+  p != d && (p - d).abs <= 4e-6 * (if d < 1.0 then 1.0 else d)
 
 /-- settings + training corpus → fitted vectoriser, or the error kind -/
 def doFit (toks : List String) : Option (Except String Req) := do
@@ -59,12 +86,22 @@ def doFit (toks : List String) : Option (Except String Req) := do
   let lo ← argF32 toks "lo"; let hi ← argF32 toks "hi"
   let stop ← argStop toks; let cap ← argCap toks
   let docs ← argDocs toks "fit"
+  argForm toks "ffit" fitForms
   match checkParams nmin nmax lo hi with
   | some e => some (.error e)
   | none =>
     let grams := docs.map (docGrams strJoiner nmin nmax)
     let (a, b) := absBounds lo hi docs.length
-    some (.ok ⟨nmin, nmax, fit byWord grams a b stop cap⟩)
+    let F := fit byWord grams a b stop cap
+    let corpus := readCorpus grams
+    let ftie := corpus.any fun e => floatTie lo docs.length e.2.2 || floatTie hi docs.length e.2.2
+    let ctie := match cap with
+      | none => false
+      | some _ =>
+        let A := (fit byWord grams a b stop none).vec
+        let dfw := fun (w : String) => ((corpus.find? fun e => e.1 == w).map (·.2.2)).getD 0
+        A.any fun bw => !F.vec.contains bw && F.vec.any fun aw => dfw aw == dfw bw
+    some (.ok ⟨nmin, nmax, F, !(ftie || ctie)⟩)
 
 def doFixed (toks : List String) : Option (Except String Req) := do
   let nmin ← argNat toks "nmin"; let nmax ← argNat toks "nmax"
@@ -72,29 +109,49 @@ def doFixed (toks : List String) : Option (Except String Req) := do
   let words ← argWords toks "vocab"
   match checkParams nmin nmax lo hi with
   | some e => some (.error e)
-  | none => some (.ok ⟨nmin, nmax, fitVocabulary byWord words⟩)
+  | none => some (.ok ⟨nmin, nmax, fitVocabulary byWord words, true⟩)
 
+/-- invalid settings are outside the property: only "the fit is refused" is compared, not the kind -/
 def respCount (toks : List String) (r : Except String Req) : Option String := do
   let tr ← argDocs toks "tr"
+  argForm toks "ftr" trForms
   match r with
-  | .error e => some ("err " ++ e)
+  | .error _ => some "err"
   | .ok q =>
     let m := transform q.fitted (tr.map (docGrams strJoiner q.nmin q.nmax))
-    some s!"ok n={q.fitted.vocabulary.length} vocab={showVocab q.fitted.vec} counts={showList2 toString m}"
+    some s!"ok n={q.fitted.vocabulary.length} vocab={showVocab q.fitted.vec} counts={showList2 toString m} nnz={nnz m} {showMargin q.decided}"
 
 def respTfIdf (toks : List String) (r : Except String Req) : Option String := do
   let tr ← argDocs toks "tr"
   let meth ← argMethod toks
+  argForm toks "ftr" trForms
   match r with
-  | .error e => some ("err " ++ e)
+  | .error _ => some "err"
   | .ok q =>
-    let m : List (List Float) := transformTfIdf meth q.fitted (tr.map (docGrams strJoiner q.nmin q.nmax))
-    some s!"ok n={q.fitted.vocabulary.length} vocab={showVocab q.fitted.vec} tfidf={showList2 (fun x => "~" ++ showF64c x) m}"
+    let grams := tr.map (docGrams strJoiner q.nmin q.nmax)
+    let m : List (List Float) := transformTfIdf meth q.fitted grams
+    some s!"ok n={q.fitted.vocabulary.length} vocab={showVocab q.fitted.vec} tfidf={showList2 (fun x => "~" ++ showF64c x) m} {showMargin q.decided}"
 
 def handleNgrams (toks : List String) : Option String := do
   let nmin ← argNat toks "nmin"; let nmax ← argNat toks "nmax"
   let ws ← argWords toks "words"
   some ("ok " ++ showList2 showWord (ngramList strJoiner ws nmin nmax))
+
+def argBool (toks : List String) (key : String) : Option Bool := do
+  let s ← arg toks key
+  if s == "1" then some true else if s == "0" then some false else none
+
+/-- `transform_string` on one document: the two Unicode maps arrive as the finite tables the
+harness computed from first principles (`raw ↦ nfkd`, `raw ↦ low`, `nfkd ↦ lownfkd`) -/
+def handleTString (toks : List String) : Option String := do
+  let lower ← argBool toks "lower"; let norm ← argBool toks "norm"
+  let raw ← (arg toks "raw").bind parseWord
+  let nf ← (arg toks "nfkd").bind parseWord
+  let low ← (arg toks "low").bind parseWord
+  let lownf ← (arg toks "lownfkd").bind parseWord
+  let nfkdF := fun (s : String) => if s == raw then nf else s
+  let lowerF := fun (s : String) => if s == raw then low else if s == nf then lownf else s
+  some ("ok " ++ showWord (transformString nfkdF lowerF norm lower raw))
 
 def handle (toks : List String) : String :=
   let r := match toks with
@@ -103,6 +160,7 @@ def handle (toks : List String) : String :=
     | "fixed" :: rest => (doFixed rest).bind (respCount rest)
     | "fixed_tfidf" :: rest => (doFixed rest).bind (respTfIdf rest)
     | "ngrams" :: rest => handleNgrams rest
+    | "tstring" :: rest => handleTString rest
     | _ => none
   r.getD "bad-op"
 
